@@ -506,15 +506,15 @@ def confirm_2d(ctx, M, mism):
     """correspondence mismatches the 3-D model search does not explain (e.g. the 1-D/2-D reduction):
        evaluate the property's own predicate (derivative by central differences) on the real law
        object in 2-D at the mismatching state; keep the candidates that reproduce."""
-    found, seen = [], set()
+    found, seen, tries = [], set(), {}
     for m in mism:
         cid, law, text, c, q = m
         if law not in M["laws"] or c.get("dimreq") != 2 or q == "W":
             continue
         mode = "stress" if q == "dWde" else "tangent"
-        if (law, mode) in seen:
+        if (law, mode) in seen or tries.get((law, mode), 0) >= 4:
             continue
-        seen.add((law, mode))
+        tries[(law, mode)] = tries.get((law, mode), 0) + 1
         G = c["G"]
         Fm = [[G[i][j] + (1.0 if i == j else 0.0) for j in range(3)] for i in range(3)]
         Cm = [[sum(Fm[k][i] * Fm[k][j] for k in range(3)) for j in range(3)] for i in range(3)]
@@ -525,6 +525,7 @@ def confirm_2d(ctx, M, mism):
         open(path, "w").write(snippet)
         rc, out, err = ctx.impl_python(path, timeout=300)
         if rc == 1:
+            seen.add((law, mode))
             found.append(("%s2d:%s" % (mode, law),
                           "%s (2-D): Compute_%s is not the derivative of Compute_%s at C (Kelvin-Mandel) = %s, parameters %s: %s"
                           % (law, "dWde" if mode == "stress" else "d2Wde", "W" if mode == "stress" else "dWde", [round(x, 4) for x in Ckm], c["params"], out.strip().splitlines()[-1] if out.strip() else ""),
